@@ -26,6 +26,14 @@ func unsub(client string, id uint16, f string) Action {
 func pub(client, topic string, q byte, id uint16, payload string) Action {
 	return Action{Kind: "pub", Client: client, Topic: topic, QoS: q, ID: id, Payload: payload}
 }
+// flood: QoS 0 traffic of one client on a topic nobody needs, more than its
+// 16 KiB incoming ring holds: whatever the broker kept of that client's earlier
+// packets (filters, will, retained payloads, client id) by reference into the
+// ring instead of as a copy is overwritten by it.
+func flood(client string) []Action {
+	return []Action{pub(client, "zz", 0, 0, big(8100, 1)), pub(client, "zz", 0, 0, big(8100, 2)), pub(client, "zz", 0, 0, big(8100, 3))}
+}
+
 func pubr(client, topic string, q byte, id uint16, payload string) Action {
 	a := pub(client, topic, q, id, payload)
 	a.Retain = true
